@@ -11,7 +11,6 @@ import (
 	"fmt"
 	"os"
 	"reflect"
-	"strings"
 	"testing"
 
 	"github.com/New-JAMneration/JAM-Protocol/internal/zzverif/vlib"
@@ -129,12 +128,23 @@ type c13Runner struct {
 	// make(): the bytes at that position are a length that goes straight to the allocator
 	twinUnit uint64
 	twinPos  int
+	twinSet  bool
+	twinHot  bool
 	skipped  uint64
+}
+
+// hot: memoised cgenHot for the current (seed, position).
+func (c *c13Runner) hot(unit uint64, seed cgenSeed, pos int) bool {
+	if c.twinUnit != unit || c.twinPos != pos || !c.twinSet {
+		c.twinUnit, c.twinPos, c.twinSet = unit, pos, true
+		c.twinHot = cgenHot(seed.ct, seed.enc, pos)
+	}
+	return c.twinHot
 }
 
 func (c *c13Runner) runCase(unit uint64, seed cgenSeed, m cgenMut) {
 	ct := seed.ct
-	if cgenHugeLength(m) && c.twinUnit == unit && c.twinPos == m.Pos {
+	if cgenHugeLength(m) && c.hot(unit, seed, m.Pos) {
 		// Not part of C13's space (see the rule): this input asks the allocator for >= 2^21
 		// elements at a position where the declared length reaches make() unchecked. Whether the
 		// process survives that is C14's question; executed there.
@@ -146,13 +156,6 @@ func (c *c13Runner) runCase(unit uint64, seed cgenSeed, m cgenMut) {
 	w := cgenApply(seed.enc, m)
 	res := c13Decode(ct, w)
 	c.sink.Count(1, 1)
-	if m.Kind == "ins" && m.Val == cgenNat56 {
-		if res.panicked && (strings.Contains(res.pmsg, "makeslice") || strings.Contains(res.pmsg, "makemap") || strings.Contains(res.pmsg, "out of range")) {
-			c.twinUnit, c.twinPos = unit, m.Pos
-		} else {
-			c.twinPos = -1
-		}
-	}
 	outcome := "rejected"
 	switch {
 	case res.panicked:
